@@ -215,6 +215,50 @@ func runC16(c *eng.Ctx) {
 				ok = only && always
 			}
 		}
+		// the library form: maps.DeleteFunc(collection, func(_, entry) bool { return entry.Group == group }) on every path
+		if loop == nil {
+			var pred *ast.FuncLit
+			isDeleteFunc := func(gn *eng.GNode) bool {
+				return len(g.CallsAt(gn, func(o types.Object, call *ast.CallExpr) bool {
+					if !eng.IsPkgFunc(o, "maps", "DeleteFunc") || len(call.Args) != 2 || !eng.IsField(info, call.Args[0], collection) {
+						return false
+					}
+					if fl, isL := ast.Unparen(call.Args[1]).(*ast.FuncLit); isL {
+						pred = fl
+						return true
+					}
+					return false
+				})) > 0
+			}
+			if g.MustPassToExit(eng.Query{FromEntry: true}, isDeleteFunc) == nil && pred != nil && pred.Type.Params.NumFields() == 2 {
+				var entry types.Object
+				if last := pred.Type.Params.List[len(pred.Type.Params.List)-1]; len(last.Names) > 0 {
+					entry = info.Defs[last.Names[len(last.Names)-1]]
+				}
+				if l := p.LitOf(pred); l != nil && entry != nil {
+					lg := p.GraphOfLit(l)
+					groupsEqual := func(holds bool) func(fc eng.Fact) bool {
+						return func(fc eng.Fact) bool {
+							x, y, eq, isEq := eng.EqAtom(fc)
+							if !isEq {
+								return false
+							}
+							isG := func(e ast.Expr) bool {
+								s, isS := ast.Unparen(e).(*ast.SelectorExpr)
+								return isS && s.Sel.Name == "Group" && eng.SelObj(info, s.X) == entry
+							}
+							if (isG(x) && eng.SelObj(info, y) == group) || (isG(y) && eng.SelObj(info, x) == group) {
+								return eq == holds
+							}
+							return false
+						}
+					}
+					t1, f1 := lg.BoolResultUnder(groupsEqual(true))
+					t2, f2 := lg.BoolResultUnder(groupsEqual(false))
+					ok = t1 && !f1 && !t2 && f2
+				}
+			}
+		}
 		r2.Check(ok, f.Key+" deletes-exactly-the-group", f.Decl.Pos(), "delete(collection, key) iff entry.Group == group, for every entry", "the collector does not delete exactly the entries whose Group equals the expired group (series of other groups disappear, or series of this group survive)")
 	}
 
